@@ -129,6 +129,7 @@ def run(chk):
             chk.diverge({"clause": clause, "src": "default-registry", "observed": e.get("kind")}, {k: v for k, v in e.items() if k != "sp"})
     chk.mark("default-registry")
     offsets_and_deltas(chk)
+    access_forms_agree(chk)
     canonical_sweep(chk, rng, 6000 if chk.tier == "thorough" else 1500)
     return chk.finish(
         rule="cases = (registry of the MC_C08 family, string of length <= 3) resolved through five entry points in two lookup orders and "
@@ -287,6 +288,41 @@ def offsets_and_deltas(chk):
             continue
         if got != (name, sym):
             chk.diverge({"clause": "canonical-name-symbol"}, {"string": s, "expected": [name, sym], "observed": list(got)})
+
+
+def access_forms_agree(chk):
+    """ureg.<name>, getattr, `name in ureg` and ureg[...]-style lookups agree with parse_units for every accepted spelling - also for
+    names with unusual shapes (double underscores inside, trailing digits, a leading underscore is reserved for Python attributes)"""
+    import pint
+    lines = ["k- = 1000 = k-", "half__life = [T] = hl__s", "t__half = 3 half__life", "x2 = 5 half__life = x_2", "plain = 7 half__life"]
+    u = pint.UnitRegistry(lines)
+    for s_ in ("half__life", "hl__s", "t__half", "khalf__life", "t__halfs", "x2", "x_2", "kx2", "plain", "plains", "kplain", "nosuch", "k__plain"):
+        chk.case(("access-forms", s_))
+        try:
+            want = dict((1 * u.parse_units(s_)).unit_items())
+        except pint.UndefinedUnitError:
+            want = None
+        forms = {}
+        try:
+            forms["getattr"] = dict((1 * getattr(u, s_)).unit_items())
+        except (pint.UndefinedUnitError, AttributeError) as e:
+            forms["getattr"] = None if isinstance(e, pint.UndefinedUnitError) else "AttributeError"
+        except Exception as e:
+            forms["getattr"] = "EXC:" + type(e).__name__
+        try:
+            forms["in"] = (s_ in u)
+        except Exception as e:
+            forms["in"] = "EXC:" + type(e).__name__
+        try:
+            forms["Quantity"] = dict(u.Quantity(1, s_).unit_items())
+        except pint.UndefinedUnitError:
+            forms["Quantity"] = None
+        except Exception as e:
+            forms["Quantity"] = "EXC:" + type(e).__name__
+        ok = forms["getattr"] == want and forms["Quantity"] == want and forms["in"] == (want is not None)
+        if not ok:
+            chk.diverge({"clause": "access-forms-disagree", "form": next(k for k in forms if forms[k] != (want if k != "in" else want is not None))},
+                        {"registry": lines, "string": s_, "parse_units": repr(want), "forms": {k: repr(v) for k, v in forms.items()}})
 
 
 def canonical_sweep(chk, rng, n):
